@@ -83,6 +83,9 @@ func (e *Env) specSort(ty string) (Sort, types.Type) {
 
 func (e *Env) lookupType(name string) types.Type {
 	name = strings.TrimSpace(name)
+	if name == "interface{}" || name == "any" {
+		return types.NewInterfaceType(nil, nil)
+	}
 	if strings.HasPrefix(name, "[]") {
 		el := e.lookupType(name[2:])
 		if el == nil {
@@ -634,6 +637,12 @@ func (e *Env) evalCall(n *ECall) SVal {
 	case "bytestr":
 		// abstract content of a []byte value
 		need(1)
+		if a := arg(0); a.Type != nil {
+			if at, ok := a.Type.Underlying().(*types.Array); ok {
+				// a byte array value: its whole contents
+				return SVal{T: c.bytesContentOf(a.T, intLit(0), intLit(at.Len())), Type: types.Typ[types.String]}
+			}
+		}
 		return SVal{T: c.bytesContent(e.cur, arg(0).T), Type: types.Typ[types.String]}
 	case "bigenc":
 		need(1)
